@@ -416,7 +416,8 @@ pub struct Outcome {
 pub fn check_main<P: Prop>(p: &P, tier: Tier) -> Outcome {
     let seed = verif_seed();
     println!("check {} tier={} VERIF_SEED={} jobs={}", p.id(), tier.name(), seed, jobs());
-    let n = std::env::var("VERIF_RUNS").ok().and_then(|s| s.parse().ok()).unwrap_or_else(|| p.runs(tier));
+    let div: u64 = std::env::var("VERIF_RUNS_DIV").ok().and_then(|s| s.parse().ok()).unwrap_or(1).max(1);
+    let n = std::env::var("VERIF_RUNS").ok().and_then(|s| s.parse().ok()).unwrap_or_else(|| (p.runs(tier) / div).max(1));
     let cap = std::env::var("VERIF_WALL_CAP_S").ok().and_then(|s| s.parse().ok()).unwrap_or(match tier {
         Tier::Quick => 900.0,
         Tier::Thorough => 7200.0,
